@@ -774,6 +774,24 @@ func (ft *fnTrans) ret(x *ssa.Return, h *Heap, reach string) {
 		}
 		vc.oblige("post", name+site, reach, t, e.Src, e.Line)
 	}
+	// package invariants: re-established by the initialiser and by every function whose frame contains a package variable
+	if ft.pkg != nil && !ft.fc.Havocs {
+		touches := ft.fn.Synthetic == "package initializer"
+		for _, m := range ft.modItems {
+			if strings.HasPrefix(m.comp, "G:") {
+				touches = true
+			}
+		}
+		if touches {
+			for _, inv := range vc.P.cs.PkgInvs[ft.pkg.Path()] {
+				t, err := env.Bool(inv.Expr)
+				if err != nil {
+					panic(specErr{fmt.Sprintf("pkginvariant %q: %v", inv.Src, err)})
+				}
+				vc.oblige("post", "pkginv."+inv.Name+site, reach, t, inv.Src, inv.Line)
+			}
+		}
+	}
 }
 
 func (ft *fnTrans) retOrdinal(x *ssa.Return) int {
